@@ -243,6 +243,7 @@ func (s *symState) clone() *symState {
 
 type Sym struct {
 	opts  SymOpts
+	steps int
 	paths int
 	abort string
 	out   []*Outcome
@@ -377,6 +378,13 @@ func (sy *Sym) val(st *symState, v ssa.Value) *T {
 
 func (sy *Sym) execBlock(fn *ssa.Function, b *ssa.BasicBlock, pred *ssa.BasicBlock, st *symState, depth int, k contFn) {
 	if sy.abort != "" {
+		return
+	}
+	// hard budget on the work of one enumeration: a table that needs more than this is
+	// not a finite decision table in any useful sense (reported as undecided)
+	sy.steps++
+	if sy.steps > 400000 {
+		sy.abort = "enumeration exceeds 400000 block executions (not a small decision table)"
 		return
 	}
 	st.visit[b]++
@@ -893,7 +901,7 @@ func (sy *Sym) execIf(fn *ssa.Function, b *ssa.BasicBlock, x *ssa.If, st *symSta
 	// a test decided by the values on this path (the counter of a loop over a
 	// literal list against its constant length): this visit of the block does not
 	// use up the unrolling bound — up to a hard cap, so a constant-true loop still ends
-	if c := sy.val(st, x.Cond); c.Op == "const" && c.K != nil && c.K.Kind() == constant.Bool && st.concrete < 64 && st.visit[b] > 0 {
+	if c := sy.val(st, x.Cond); c.Op == "const" && c.K != nil && c.K.Kind() == constant.Bool && st.concrete < 24 && st.visit[b] > 0 {
 		st.concrete++
 		st.visit[b]--
 		for d := range st.visit {
